@@ -148,6 +148,12 @@ pub fn check(c: &FaultCase, info: &mut CaseInfo) -> Result<(), String> {
     if matches!(c.op, FOp::SleepThenWake) {
         d.sleep().map_err(|e| format!("{:?}", e))?;
     }
+    if c.k % 2 == 1 && !matches!(c.op, FOp::Sleep | FOp::Wake | FOp::SleepThenWake) {
+        // a solid fill in the colour of the follow-up clear before the fault: state a transport keeps
+        // about "what is staged" must not survive the torn call
+        d.clear(colour_of(101, 0, d.bits())).map_err(|e| format!("fault-free clear failed: {:?}", e))?;
+        info.label("pre-filled-with-follow-up-colour");
+    }
     let sleeping_before = d.is_sleeping();
     let base = w.borrow().ops;
     {
@@ -179,7 +185,7 @@ pub fn check(c: &FaultCase, info: &mut CaseInfo) -> Result<(), String> {
         d.wake().map_err(|e| format!("{}: wake after the fault cleared failed: {:?}", what, e))?;
     }
     let table = crate::oracle::derive_orientation_bits();
-    let enc = |o: Orient| crate::oracle::madctl_expected(&table, o, cfg.bgr, cfg.refresh_v, cfg.refresh_h);
+    let enc = |o: Orient| crate::oracle::madctl_expected(&table, o, cfg.madctl_bgr(), cfg.refresh_v, cfg.refresh_h);
     let orient = match &c.op {
         FOp::Orientation(o) => {
             let reported = d.orientation();
